@@ -1,7 +1,24 @@
 # Copyright 2020 National Technology & Engineering Solutions of Sandia, LLC (NTESS).
 # Under the terms of Contract DE-NA0003525 with NTESS, the U.S. Government retains
 # certain rights in this software.
+import functools
+
+
 class JaqalError(Exception):
     """Base class for errors raised as a result of failures to comply with the Jaqal specification, trying to use features not supported by the native hardware, or trying to convert quantum circuits that don't currently have Jaqal equivalents."""
 
     pass
+
+
+def nesting_guard(func):
+    """Decorate an entry point so that a program nested too deeply for the
+    recursive algorithms is reported as a JaqalError."""
+
+    @functools.wraps(func)
+    def wrapper(*args, **kwargs):
+        try:
+            return func(*args, **kwargs)
+        except RecursionError as exc:
+            raise JaqalError("Program is nested too deeply to be processed") from exc
+
+    return wrapper
